@@ -80,7 +80,8 @@ CLAIMS = {
          "of s.step, every panic is an error value so nextLexeme lets none escape, at most three queued events, the unfinishedLiteral flag that decides acceptance at end of "
          "input agrees with the state (truncated numbers / keywords rejected), Next's reading loop terminates. Not machine-checked: that the transducer of the rows is the "
          "RFC 8259 grammar (it is written to be read against it), the composition of the rows over a whole text (language equality as a theorem about Check()), tree equality "
-         "with an independent decoder, Len().",
+         "with an independent decoder; of Len() it is proved that it never exceeds the text, that every lexeme handed out ends inside the text, and that the result does not end in a blank "
+         "(not that it is the end of the value).",
          "5 C12", "weakest-precondition VCs over go/ssa + SMT; function-type contract instantiated per state function"),
  "C10": ("Partial (the aliasing half). The eight functions that take a buffer from a process-wide sync.Pool (exampleBuilder.buildExampleForObjectNode/"
          "ArrayNode and Build/buildObjectKey/buildExampleForMixedValueNode, the four legacy buildExample* functions, Enum/ArrayItems/ObjectProperties/"
@@ -89,7 +90,8 @@ CLAIMS = {
          "nested calls and encoding/json.Marshal may use the pools arbitrarily), to put back only buffers that came out of a pool, and to leave every "
          "byte array outside the subsystem unchanged; loader.reset is proved to clear every field and the deferred closure of LoadSchemaWithoutCompile "
          "to put the loader back only in the cleared state. Assumed: the sync.Pool / bytes.Buffer model, schema source bytes are not pool arrays, "
-         "Ref.MarshalJSON (trusted). Not decided: history independence of whole results (same answer after any sequence of other inputs), "
+         "Ref.MarshalJSON (trusted). The mock AST nodes the OpenAPI converter builds for the items of an `or` rule (openapi/internal: stringRuleToASTNode, objectRuleToASTNode, "
+         "stringRuleToASTNodeType) are proved to own a newly created rule map and to write nothing that existed before, so a conversion never edits the AST handed out by GetAST(). Not decided: history independence of whole results (same answer after any sequence of other inputs), "
          "immutability of returned ASTs and of the shared virtual 'any' node.",
          "5 C10", "weakest-precondition VCs over go/ssa + SMT; ghost ownership sets for the buffer pools"),
  "C01": ("Partial (the rule semantics, one rule at a time). Each literal validator is proved to accept exactly the values its documented rule admits: "
